@@ -67,6 +67,11 @@ def dispatchC11M (op : String) (j : Json) : M Json := do
                 match f (av * (1 - eps)), f av, f (av * (1 + eps)) with
                 | .ok a, .ok b, .ok c => jRat (max a (max b c) - min a (min b c))
                 | _, _, _ => Json.null
+              let rw := rmswidth T l none
+              let pb := photbw T l none
+              let pbThr := match threshold with
+                | none => pb
+                | some _ => photbw T l threshold
               pure (Json.mkObj [("ok", Json.mkObj [
                 ("n", Json.num (l.length : Nat)),
                 ("tl_spread", tlSpread),
@@ -74,12 +79,15 @@ def dispatchC11M (op : String) (j : Json) : M Json := do
                 ("barlam", num (barlam T l)),
                 ("pivot", num (pivot T l)),
                 ("unit_response", outcome jRat (unitResponse hc a l)),
-                ("rmswidth", num (rmswidth T l none)),
-                ("rmswidth_thr", num (rmswidth T l threshold)),
-                ("photbw", num (photbw T l none)),
-                ("photbw_thr", num (photbw T l threshold)),
-                ("fwhm", num (fwhm T l none)),
-                ("fwhm_thr", num (fwhm T l threshold)),
+                ("rmswidth", num rw),
+                ("rmswidth_thr", num (match threshold with
+                  | none => rw
+                  | some _ => rmswidth T l threshold)),
+                ("photbw", num pb),
+                ("photbw_thr", num pbThr),
+                -- `fwhm T l thr = T.sqrt (8 * T.ln 2) * photbw T l thr` by definition (C11.fwhm_photbw)
+                ("fwhm", num (T.sqrt (8 * T.ln 2) * pb)),
+                ("fwhm_thr", num (T.sqrt (8 * T.ln 2) * pbThr)),
                 ("tlambda", outcome jRat (tlambda f l)),
                 ("tpeak", outcome jRat (checked .valueError l tp)),
                 ("wpeak", outcome jRat (checked .valueError l (wpeak l))),
